@@ -1,26 +1,17 @@
-"""Per-property configuration of ./check (which Lean modules hold the theorems, which harness engines
-tie the model to the code, which translators regenerate Lean sources from /repo)."""
+"""Per-property configuration of ./check: one JSON file per claimed property in propcfg/
+(which Lean modules hold the theorems, which harness engines tie the model to the code, which
+translators regenerate Lean sources from the repository). See AGENT_GUIDE.md for the fields."""
+import glob
+import json
+import os
 
-PROPS = {
-    "C08": {
-        "lean_modules": ["MdProofs.C08", "MdProofs.Lemmas.RangeMap"],
-        "property_modules": ["MdProofs.C08"],
-        "engines": ["ranges"],
-        "translators": [],
-        "explanation": "Theorems about MdModel.RangeMap (into_rangemap_safe x2, RangeMap::normalize/get, every memory_range(), "
-                       "the unloaded-module vector, insert_win_stack_info) for lists of any length; the model is tied to the code by "
-                       "running all eleven table builders of the repository and the compiled model on the same entry lists.",
-        "assumptions": [
-            "Rust's slice::sort_by_key is a stable sort (modelled by List.mergeSort)",
-            "range_map::RangeMap::{try_from_iter,normalize,get} re-implemented from range-map 0.2.0's source and compared through the repo's builders",
-            "binary_search_by returns the unique Equal element on a sorted, disjoint vector (proved for the model's own binary search)",
-        ],
-        "level_text": "Proof: 40+ Lean theorems (no sorry, axioms = propext/Classical.choice/Quot.sound) about an executable model of both into_rangemap_safe copies, RangeMap::normalize/get, all memory_range() constructors, the unloaded-module list and the STACK WIN overlap repair, for entry lists of ANY length and addresses up to 2^64-1: normalized output (sorted, disjoint), the final unwrap cannot fire, lookups are sound with no hypothesis, isolated entries are always found, unloaded lookup is an exact filter. The model is tied to the code on every run by executing all eleven table builders and the compiled model on the same lists (exhaustive small domain incl. the 2^64 boundary + random u64).",
-        "level_note": "Trusted: Lean kernel; the hand-written model (tied by correspondence, not by translation); Rust sort stability; range-map 0.2.0 re-implemented from source. The generators bound what the correspondence sees.",
-        "design_ref": "DESIGN.md §6.C08",
-        "trusted_base": ["model MdModel/RangeMap.lean is hand-written; tie = engine `ranges` (exhaustive small domain + random u64)"],
-    },
-}
+_HERE = os.path.dirname(os.path.abspath(__file__))
+PROPS = {}
+for _p in sorted(glob.glob(os.path.join(_HERE, "propcfg", "C*.json"))):
+    PROPS[os.path.basename(_p)[:-5]] = json.load(open(_p))
 
 # properties that are not claimed, with the reason (kept current)
 NOT_APPLICABLE = {}
+_na = os.path.join(_HERE, "propcfg", "not_applicable.json")
+if os.path.exists(_na):
+    NOT_APPLICABLE = json.load(open(_na))
